@@ -270,10 +270,10 @@ def _parse_multi_typed(
     ```
     """
     state = state or _ParseState()
-    default = schema.get("default", NotPassed())
-    schema = {key: val for key, val in schema.items() if key != "default"}
     if len(type_list) == 1:
         return parse_element({**schema, "type": type_list[0]}, state)
+    default = schema.get("default", NotPassed())
+    schema = {key: val for key, val in schema.items() if key != "default"}
     return AnyOf(
         *(
             parse_element({**schema, "type": type_value}, state)
